@@ -5,6 +5,11 @@
 (* 13-byte file header, 11 + n + 4 bytes per tag; handshake 1, 1536, 1536).    *)
 (* The replayer enumerates EVERY cut offset 0..Total and every read / write    *)
 (* call index of each of them; Complete(n) is FramedIo's.                      *)
+(* Plans are FramedIo's transport plans, to be replayed at every position;     *)
+(* ReadSegs are the ways the transport cuts the stream into read calls (which  *)
+(* decide where FramedIo's `moved` stands when a call is issued): everything   *)
+(* available, one byte, seeded random pieces, and pieces that end exactly at   *)
+(* the item ends, so that a transport call is the first one of an item.        *)
 EXTENDS Integers, Sequences, TLC, Json
 
 CONSTANTS Thorough
@@ -27,10 +32,14 @@ FlvTags == {Tag(8, 0, 0), Tag(9, 1, 16777216), Tag(18, 255, 40), Tag(9, 300, 80)
            \cup (IF Thorough THEN {Tag(9, 65536, 1000)} ELSE {})
 FlvSizes(ts) == <<13>> \o [i \in 1..Len(ts) |-> 11 + ts[i].n + 4]
 
+Plans == <<"cut", "readfault", "writefault">>       \* FramedIo!plan.kind; a fault fails ONE transport call, later calls work
+ReadSegs == <<"whole", "random", "aligned", "one">>
+Case(k, items, sizes) == [kind |-> k, items |-> items, sizes |-> sizes, plans |-> Plans, readsegs |-> ReadSegs]
+
 VARIABLE c
-Init == \/ \E ms \in Seqs(RtmpShapes, 3) : c = [kind |-> "rtmp", items |-> ms, sizes |-> RtmpSizes(ms, 128)]
-        \/ \E ts \in Seqs(FlvTags, 3) : c = [kind |-> "flv", items |-> ts, sizes |-> FlvSizes(ts)]
-        \/ c = [kind |-> "handshake", items |-> <<>>, sizes |-> <<1, 1536, 1536>>]
+Init == \/ \E ms \in Seqs(RtmpShapes, 3) : c = Case("rtmp", ms, RtmpSizes(ms, 128))
+        \/ \E ts \in Seqs(FlvTags, 3) : c = Case("flv", ts, FlvSizes(ts))
+        \/ c = Case("handshake", <<>>, <<1, 1536, 1536>>)
 Next == UNCHANGED c
 Emit == PrintT(<<"CASE", ToJson(c)>>)
 =============================================================================
